@@ -165,7 +165,7 @@ fn db_line(line: &str) -> String {
                 } else {
                     w[i + 3]
                         .split(',')
-                        .map(|d| String::from_utf8(unhex(d)).unwrap())
+                        .map(|d| raw_string(unhex(d)))
                         .collect()
                 };
                 if let Err(e) = s.write_build(b, deps, h) {
@@ -315,6 +315,11 @@ fn cleanup_load_dir() {
             let _ = std::fs::remove_dir_all(&dir);
         }
     });
+}
+
+/// n2 carries names as byte strings inside `String` (from_utf8_unchecked); so does the harness
+pub fn raw_string(b: Vec<u8>) -> String {
+    unsafe { String::from_utf8_unchecked(b) }
 }
 
 fn main() {
